@@ -51,6 +51,13 @@ def gen(rng, tier):
                     yield '%s %d %s %s' % (op, bits, hx(a), hx(b))
             for op in OPS1:
                 yield '%s %d %s' % (op, bits, hx(a))
+    # word primitives (generated model vs real function): boundary words x carry-in
+    ws = [0, 1, 2, 2**63 - 1, 2**63, 2**64 - 2, 2**64 - 1] + [rng.getrandbits(64) for _ in range(20)]
+    for a in ws:
+        for b in ws + [(2**64 - a) % 2**64, (2**64 - 1 - a), a]:
+            for c in 'tf':
+                yield 'w_cadd 64 %x %x %s' % (a, b, c)
+                yield 'w_bsub 64 %x %x %s' % (a, b, c)
     k = 0
     while k < n:
         bits = rng.choice(GRID_ALL)
